@@ -154,3 +154,25 @@ Theorem C01_source_stored_complete : forall store a b rv x,
   In x (g_mem_fetch_static store a b rv).
 Proof. exact src_stored_complete. Qed.
 Print Assumptions C01_source_stored_complete.
+
+(* ---- tie C (second extension): Intersection._sweep, Union.fetch, Difference.fetch as the code has them ---- *)
+From CG Require Import Proofs.GenEq6 Proofs.GenEq9.
+
+Theorem C01_source_intersection_cover : forall fuel streams idxs,
+  fs_ok (length streams) idxs -> (total_len streams < fuel)%nat -> (2 <= length streams)%nat -> idxs <> nil ->
+  Forall (Forall wf_ivl) streams -> Forall sorted_start streams ->
+  exists l, g_inter_sweep fuel streams idxs = RDone l /\ sorted_start l /\
+            forall t, covers l t = forallb (fun s => covers s t) streams.
+Proof. exact src_inter_cover_sorted. Qed.
+Print Assumptions C01_source_intersection_cover.
+
+Theorem C01_source_union_is_model : forall env es a b rv,
+  g_union_fetch es (fetch env) a b rv = fetch env (Union es) a b rv.
+Proof. exact g_union_fetch_is_model. Qed.
+Print Assumptions C01_source_union_is_model.
+
+Theorem C01_source_difference_fetch_is_model : forall env s subs a b rv fuel,
+  (total_len (map (fun u => fetch env u a b rv) subs) < fuel)%nat ->
+  g_diff_fetch fuel (fetch env s) subs (fetch env) a b rv = RDone (fetch env (Diff s subs) a b rv).
+Proof. exact g_diff_fetch_is_model. Qed.
+Print Assumptions C01_source_difference_fetch_is_model.
